@@ -36,6 +36,7 @@ REQUIRED = {"cases_judged": 500, "lost_cases": 50, "followups": 500}
 
 TIMEOUT_CODE = 0x05040000
 VAL_OBJ = (0x2000 + R.DOMAIN, 0)       # DOMAIN: arbitrary bytes, also in the real server's OD
+MEMBER_OBJ = (0x2100, list(R.NAMES).index(R.DOMAIN) + 1)       # the DOMAIN member of the typed record
 FU_UP = (0x2000 + R.OCTET_STRING, 0)
 
 
@@ -174,6 +175,8 @@ def run_case(ctx, c):
     rig = make_rig(c["peer"], c.get("blk", 5), c.get("srv"))
     kind, n, k, dist = c["kind"], c["n"], c["k"], c["dist"]
     mux = list(VAL_OBJ)
+    if dist == "mux-sub" and c["seed"] % 2:
+        mux = list(MEMBER_OBJ)          # a record member: the foreign answer may then also be the one for sub-index 0
     data = payload(n, c["seed"])
     upload = kind.endswith("ul")
     if upload:
@@ -208,6 +211,8 @@ def run_case(ctx, c):
             # the value itself (expedited upload), that object's different data
             d = bytearray(frame.data)
             d[1 if dist == "mux-index" else 3] ^= 0x01
+            if dist == "mux-sub" and mux[1] and c["seed"] % 4 == 1:
+                d[3] = 0
             if d[0] >> 5 == 2 and d[0] & 0x02:
                 d[4:8] = bytes(b ^ 0xFF for b in d[4:8])
             return [frame.replace(data=bytes(d))]
